@@ -767,6 +767,6 @@ func init() {
 		Run:            c03Run,
 		Replay:         c03Replay,
 		QuickBudget:    170 * time.Second,
-		ThoroughBudget: 15 * time.Minute,
+		ThoroughBudget: 8 * time.Minute,
 	})
 }
